@@ -18,7 +18,6 @@ from common import zlit, dylit, coq_list, qlit, coq_bool
 
 PROP = 'C03'
 PROPS_FILE = 'Props/C03.v'
-S10 = 'S10-periodic-basis-gap'
 
 HEADER = """From Coq Require Import List ZArith QArith Bool.
 From PG Require Import Base.Ops Base.Vec Model.BSpline Model.C03Check.
@@ -67,13 +66,25 @@ def scaled(x, ek, periodic):
     if sc_f == 0:
         sc_f = 1.0
     raw_f = (float(x) - lo_f) / sc_f
-    xs_f = float(np.float64(raw_f) % np.float64(P_FLOAT)) if periodic else raw_f
+    mod_f = float(np.float64(raw_f) % np.float64(P_FLOAT)) if periodic else raw_f
+    xs_f = min(mod_f, 1.0) if periodic else raw_f            # np.minimum(x % (1+1e-9), 1.0)  (repair of S10)
     sc_e = Fraction(hi_f) - Fraction(lo_f)
     if sc_e == 0:
         sc_e = Fraction(1)
     raw_e = (Fraction(float(x)) - Fraction(lo_f)) / sc_e
-    xs_e = raw_e - P_EXACT * math.floor(raw_e / P_EXACT) if periodic else raw_e
+    mod_e = raw_e - P_EXACT * math.floor(raw_e / P_EXACT) if periodic else raw_e
+    xs_e = min(mod_e, Fraction(1)) if periodic else raw_e
     return raw_f, xs_f, raw_e, xs_e, sc_e
+
+
+def wrapped(x, ek):
+    """(float, exact) value of x_scaled % (1+1e-9) before the clip to 1"""
+    lo_f, hi_f = sorted([float(ek[0]), float(ek[1])])
+    sc_f = (hi_f - lo_f) or 1.0
+    raw_f = (float(x) - lo_f) / sc_f
+    sc_e = (Fraction(hi_f) - Fraction(lo_f)) or Fraction(1)
+    raw_e = (Fraction(float(x)) - Fraction(lo_f)) / sc_e
+    return float(np.float64(raw_f) % np.float64(P_FLOAT)), raw_e - P_EXACT * math.floor(raw_e / P_EXACT)
 
 
 def discontinuities(n, k, periodic):
@@ -83,7 +94,7 @@ def discontinuities(n, k, periodic):
     if k == 0:
         D += [Fraction(i, n2) for i in range(n2)] + [P_EXACT]
     if periodic:
-        D += [Fraction(0), Fraction(1), P_EXACT]
+        D += [Fraction(0), P_EXACT]       # the wrap; the clip at 1 is continuous (the row on [1, 1+1e-9) is the row at 1)
     return D
 
 
@@ -93,20 +104,22 @@ def alternatives(x, ek, n, k, periodic):
     thr = Fraction(ADJ) * max(1, abs(raw_e))
     D = discontinuities(n, k, periodic)
     adj = any(abs(xs_e - d) <= thr or abs(Fraction(xs_f) - d) <= thr for d in D)
-    if periodic and abs(Fraction(xs_f) - xs_e) > thr:
-        adj = True
+    if periodic:
+        mod_f, mod_e = wrapped(x, ek)
+        if any(abs(mod_e - d) <= thr or abs(Fraction(mod_f) - d) <= thr for d in D) or abs(Fraction(xs_f) - xs_e) > thr:
+            adj = True
     if not adj:
         return []
     fx = Fraction(float(x))
     return [fx - 2 * thr * sc_e, fx + 2 * thr * sc_e]
 
 
-def in_gap(x, ek, periodic):
-    """the S10 predicate on an input: periodic and the code's scaled, wrapped x lies in (1, 1+1e-9]"""
+def in_sliver(x, ek, periodic):
+    """periodic and the code's scaled, wrapped x lies in (1, 1+1e-9] (the former S10 gap, now clipped to the right edge)"""
     if not periodic:
         return False
-    xs_f = scaled(x, ek, True)[1]
-    return 1.0 < xs_f <= P_FLOAT
+    mod_f = wrapped(x, ek)[0]
+    return 1.0 < mod_f <= P_FLOAT
 
 
 # ----------------------------------------------------------------------------- generators
@@ -163,7 +176,7 @@ def gen_points(rng, ek, n, k, periodic, count):
     add(lo - 10 ** rng.uniform(0, 4) * sc, 'outside-far')
     add(lo + 10 ** rng.uniform(0, 4) * sc, 'outside-far')
     if periodic:
-        add(lo + (1 + 5e-10) * sc, 'periodic-gap')
+        add(lo + (1 + 5e-10) * sc, 'periodic-former-gap')
         add(lo + P_FLOAT * sc, 'periodic-wrap')
         add(lo + rng.randint(-3, 3) * P_FLOAT * sc, 'periodic-wrap')
         add(lo - 1e-20 * sc if lo == 0 else np.nextafter(lo, -np.inf), 'periodic-wrap')
@@ -206,11 +219,8 @@ def probe_config(res, rng, ek, n, k, periodic, xs, tags, rows):
     for x, tag, row in zip(xs, tags, rows):
         raw_f, xs_f, raw_e, xs_e, sc_e = scaled(x, ek, periodic)
         if isinstance(row, tuple):
-            if row[0] == 'VE' and in_gap(x, ek, periodic):
-                viol('periodic basis raises for a scaled x in the gap (1, 1+1e-9] left by `x % (1+1e-9)`', x,
-                     'ValueError: ' + row[1], 'a basis row summing to one (the periodic basis is defined for every x)', S10)
-            else:
-                viol('b_spline_basis raised on valid input', x, repr(row), 'a basis row')
+            viol('b_spline_basis raised on valid input' + (' (periodic, wrapped x in (1, 1+1e-9])' if in_sliver(x, ek, periodic) else ''),
+                 x, repr(row), 'a basis row')
             continue
         if len(row) != n:
             viol('wrong number of basis functions', x, len(row), n)
@@ -227,8 +237,7 @@ def probe_config(res, rng, ek, n, k, periodic, xs, tags, rows):
             elif not support_ok(row, k, periodic):
                 bad = 'more than order+1 consecutive non-zero functions'
             if bad:
-                f = S10 if (periodic and (in_gap(x, ek, True))) else None
-                viol(bad, x, dict(row=[float(v) for v in row], row_sum=s), 'non-negative, sum 1, support width <= %d' % (k + 1), f)
+                viol(bad, x, dict(row=[float(v) for v in row], row_sum=s), 'non-negative, sum 1, support width <= %d' % (k + 1))
         elif k >= 1:
             if abs(s - 1) > 1e-8 * mag * n:
                 viol('extrapolated row does not sum to one', x, dict(row_sum=s), 1.0)
@@ -296,28 +305,50 @@ def probe_config(res, rng, ek, n, k, periodic, xs, tags, rows):
             r1 = impl_rows([a_ * x + b_ for x in good], (a_ * ek[0] + b_, a_ * ek[1] + b_), n, k, periodic)
             for x, u, v in zip(good, r0, r1):
                 if isinstance(u, tuple) or isinstance(v, tuple):
-                    if not (in_gap(x, ek, periodic) or in_gap(a_ * x + b_, (a_ * ek[0] + b_, a_ * ek[1] + b_), periodic)):
-                        viol('b_spline_basis raised on valid input', x, repr((u, v)), 'rows')
+                    viol('b_spline_basis raised on valid input', x, repr((u, v)), 'rows')
                     continue
                 if np.max(np.abs(u - v)) > 1e-7 * max(1.0, np.max(np.abs(u))):
                     viol('basis is not invariant under x -> a*x+b applied to x and the edge knots', x,
                          dict(a=a_, b=b_, row=u.tolist(), transformed=v.tolist()), 'equal rows')
 
 
-def probe_s10(res):
-    """deterministic witnesses of S10 (kept independent of the random stream)"""
-    cfgs = [((0.0, 1.0), 6, 3, 1 + 5e-10), ((0.0, 1.0), 4, 1, float(np.nextafter(1.0, 2.0))), ((2.0, 4.0), 5, 2, 4.000000001),
-            ((0.0, 1.0), 6, 0, -1e-20)]
-    for ek, n, k, x in cfgs:
-        r = impl_rows([x], ek, n, k, True)[0]
-        bad = isinstance(r, tuple) or abs(float(np.sum(r)) - 1) > 1e-8
-        if bad and in_gap(x, ek, True):
+def probe_sliver_config(res, ek, n, k):
+    """points of (hi, lo + (1+1e-9)*range] of a periodic basis give the right-edge row (and never raise)"""
+    lo, hi = sorted(ek)
+    sc = (hi - lo) or 1.0
+    right = lo + sc
+    cand = [float(np.nextafter(right, np.inf)), lo + (1 + 2.5e-10) * sc, lo + (1 + 5e-10) * sc, lo + (1 + 9.9e-10) * sc,
+            lo + P_FLOAT * sc - (lo + P_FLOAT * sc - right) * 2.0 ** -10]
+    pts = [x for x in cand if in_sliver(x, ek, True)]
+    if not pts:
+        return 0
+    ref = impl_rows([right], ek, n, k, True)[0]
+    rows = impl_rows(pts, ek, n, k, True)
+    for x, r in zip(pts, rows):
+        bad = isinstance(r, tuple) or isinstance(ref, tuple) or np.max(np.abs(np.asarray(r) - np.asarray(ref))) > 1e-12
+        if bad:
             res.violations.append(dict(
-                what='periodic basis is undefined on the gap (1, 1+1e-9] of the wrapped axis', finding=S10,
-                input=dict(edge_knots=list(ek), n_splines=n, spline_order=k, periodic=True, x=x),
-                observed=('%s: %s' % (r[0], r[1])) if isinstance(r, tuple) else dict(row=[float(v) for v in r]),
-                expected='a non-negative row summing to one'))
-        res.case(('s10', ek, n, k, x))
+                what='periodic basis: a point that wraps into (1, 1+1e-9] does not get the row of the right edge', finding=None,
+                input=dict(edge_knots=list(ek), n_splines=n, spline_order=k, periodic=True, x=float(x)),
+                observed=repr(r) if isinstance(r, tuple) else dict(row=[float(v) for v in r]),
+                expected=repr(ref) if isinstance(ref, tuple) else dict(row_at_right_edge=[float(v) for v in ref])))
+        res.case(('sliver', ek, n, k, float(x)))
+    return len(pts)
+
+
+def probe_sliver(res):
+    """deterministic former witnesses of S10 (independent of the random stream), incl. the float artefact x % p == p"""
+    cfgs = [((0.0, 1.0), 6, 3), ((0.0, 1.0), 4, 1), ((2.0, 4.0), 5, 2), ((0.0, 1.0), 6, 0), ((-3.0, 5.0), 40, 5), ((0.5, 0.75), 1, 0)]
+    tot = 0
+    for ek, n, k in cfgs:
+        tot += probe_sliver_config(res, ek, n, k)
+    r = impl_rows([-1e-20, 1.0], (0.0, 1.0), 6, 0, True)       # float modulo returns the divisor itself
+    if isinstance(r[0], tuple) or isinstance(r[1], tuple) or not np.array_equal(r[0], r[1]):
+        res.violations.append(dict(what='periodic basis: x % (1+1e-9) == 1+1e-9 (tiny negative x) does not get the right-edge row',
+                                   finding=None, input=dict(edge_knots=[0.0, 1.0], n_splines=6, spline_order=0, periodic=True, x=-1e-20),
+                                   observed=repr(r[0]), expected=repr(r[1])))
+    res.case(('sliver-float-artefact',))
+    res.count('probe:former-gap points give the right-edge row', tot + 1)
 
 
 def probe_edge_knots(res, rng, count):
@@ -363,15 +394,12 @@ def basis_cases(res, rng, tier):
                                            input=dict(edge_knots=list(ek), n_splines=n, spline_order=k, periodic=periodic, x=x),
                                            observed=repr((a, b)), expected='identical'))
         probe_config(res, rng, ek, n, k, periodic, xs, tags, rows)
+        if periodic:
+            res.count('probe:sliver points of random configurations', probe_sliver_config(res, ek, n, k))
         pts = []
         nadj = 0
         for x, tag, row in zip(xs, tags, rows):
             if isinstance(row, tuple) and row[0] == 'ERR':
-                continue
-            if periodic and k == 0 and scaled(x, ek, True)[1] >= P_FLOAT:
-                # binary64 `x % p` returned the divisor p itself (tiny negative x): no real-number model can
-                # reproduce that; the all-zero row it produces is reported by the direct probe (S10)
-                res.count('float_modulo_returned_divisor(skipped in correspondence, probed directly)')
                 continue
             alts = alternatives(x, ek, n, k, periodic)
             nadj += 1 if alts else 0
@@ -424,7 +452,7 @@ def term_cases(res, rng, tier):
                     rows.append(('VE', str(e)))
         pts = []
         for x, row in zip(test, rows):
-            if isinstance(row, tuple) and not in_gap(x, ek, periodic):
+            if isinstance(row, tuple):
                 res.violations.append(dict(what='SplineTerm.build_columns raised on valid input', finding=None,
                                            input=dict(train=train.tolist(), x=float(x), n_splines=n, spline_order=k, periodic=periodic),
                                            observed=repr(row), expected='basis row'))
@@ -443,13 +471,13 @@ def run(res):
     rng = common.rng_for(res.seed, PROP)
     res.rule = ('configurations (order 0..5, n_splines order+1..40 incl. both extremes for every order, periodic on/off, edge knots '
                 'unit / integer / 12 orders of magnitude / large offset / reversed / equal) x evaluation points (on knots, on both '
-                'boundaries, +-1 ulp around them, interior, outside near and far, periodic wrap and gap points). A case is one '
+                'boundaries, +-1 ulp around them, interior, outside near and far, periodic wrap points and points of the former S10 gap (1, 1+1e-9], now clipped to the right edge). A case is one '
                 '(configuration, x); all are non-trivial (every one exercises the recursion or a continuation branch). Points within '
-                '1e-12 (relative) of a jump of the model (order-0 knots, the periodic wrap at 0 / 1 / 1+1e-9) are compared against '
+                '1e-12 (relative) of a jump of the model (order-0 knots, the periodic wrap at 0 / 1+1e-9) are compared against '
                 'the model at x and at x -+ 2e-12*range and accepted if either matches (binary64 rounding may put the '
                 'implementation on the other side); they are counted in input_distribution.')
     common.standard_prove(res, PROPS_FILE)
-    probe_s10(res)
+    probe_sliver(res)
     probe_edge_knots(res, rng, 60 if res.tier == 'quick' else 600)
     c1, m1 = basis_cases(res, rng, res.tier)
     c2, m2 = term_cases(res, rng, res.tier)
